@@ -365,6 +365,13 @@ def nodeRefStep (r : NRef) (t : List String) (obs : String) : NRef × String :=
     let r1 := if istate = "" then r else r.setNode p (parseNodeS istate)
     let plain := (if hex = "-" then some [] else Bytes.ofHex (substIdsRef r hex)).getD []
     ({ r1 with wire := r1.wire ++ outs, queue := r1.queue ++ outs, keyholder := r1.keyholder ++ outs.map (fun (_, _, b) => (b, plain, r.now)) }, "-")
+  | "nforge" :: to :: src :: _ =>
+    let toks := obs.splitOn " "
+    match to.toNat?, (toks.head?.bind (fun t => if t.startsWith "forged=" then Bytes.ofHex (t.drop 7).toString else none)) with
+    | some port, some d =>
+      let (ires', istate') := splitObs (" ".intercalate (toks.drop 1))
+      receiveChecks r port src d true ires' istate'
+    | _, _ => (r, "-")
   | ["nmark", name] => (if r.wire.isEmpty then r else { r with marks := (name, r.wire.length - 1) :: r.marks }, "-")
   | ["ndropfrom", i] => ({ r with queue := r.queue.filter (fun (s, _, _) => s ≠ s!"p{i}") }, "-")
   | ["ndropfrom", i, j] => ({ r with queue := r.queue.filter (fun (s, d, _) => !(s = s!"p{i}" && d = s!"p{j}")) }, "-")
